@@ -206,9 +206,15 @@ def main(prop: str, tier: str) -> int:
             for kind, msg in findings:
                 rep.violation(f'C01/big/{kind}', {'what': msg, 'text_head': text[:300], 'chars': len(text)})
     pl = postlex_replay(tier, rep)
+    try:
+        from checks import builder
+        bl = builder.run(rep, tier)
+    except ImportError:
+        bl = {}
     rep.cov.update({
-        'states': states + pl.get('states', 0), 'transitions': transitions + pl.get('transitions', 0),
-        'traces_validated_against_impl': acc + pl.get('replayed', 0),
+        'states': states + pl.get('states', 0) + bl.get('states', 0), 'transitions': transitions + pl.get('transitions', 0) + bl.get('transitions', 0),
+        'model_builder_traces': bl,
+        'traces_validated_against_impl': acc + pl.get('replayed', 0) + bl.get('behaviours', 0),
         'accepted_texts': acc, 'rejected_texts_skipped': rej, 'sub_model_slices_checked': subs,
         'layout_acceptance_drift': drift, 'runs': info, 'large_documents': big, 'postlex': pl,
         'samples': samples, 'exhaustive': True,
